@@ -6,6 +6,7 @@
    Strings are lists of code points; 123 / 125 are the braces, so `brace_free s` says no replacement field is left in s. *)
 From Coq Require Import ZArith List Bool String.
 From PV Require Import Lib.PyBase Model.LocaleBase Gen.Locales Model.DiffFormat Model.LocaleSession Proofs.C18Facts Proofs.C18Session.
+From PV Require Import Model.PdBase Model.PdInterval Model.DiffHumans Proofs.C18Diff.
 Import ListNotations.
 Open Scope string_scope.
 Open Scope Z_scope.
@@ -155,3 +156,61 @@ Theorem ambient_token_total : forall ops tok month dow day hour, 0 <= tok <= 10 
   exists s, snd (step (final initial ops) (STok None tok month dow day hour)) = Ok s /\ s <> [] /\ brace_free s.
 Proof. exact initial_token_total. Qed.
 Print Assumptions ambient_token_total.
+
+(* ------------------------------------------------------------------------------------------------------------------------------
+   DateTime.diff(other) / diff_for_humans(other) end to end (Model/DiffHumans.v): Interval's ordering of the endpoints, the fold-less
+   native rebuild of Interval.__init__, precise_diff (translated pure-Python helper / hand model of the compiled one, shared with C06),
+   the component properties, then `format`.  The correspondence run compares components, invert and phrase with both backends on pairs
+   of instants in one zone and in two zones (streams `instants`, `instants-xz`). *)
+
+(* the phrase is total whenever the difference exists; with the compiled helper it always exists *)
+Theorem diff_for_humans_total : forall L rs a b oa ob absolute ci, In L all_locales -> diff_comps rs a b oa ob = Ok ci ->
+  exists s, diff_for_humans L rs a b oa ob absolute = Ok s /\ s <> [] /\ brace_free s.
+Proof. exact diff_for_humans_total_lemma. Qed.
+Print Assumptions diff_for_humans_total.
+
+Theorem diff_for_humans_rs_total : forall L a b oa ob absolute, In L all_locales ->
+  exists s, diff_for_humans L true a b oa ob absolute = Ok s /\ s <> [] /\ brace_free s.
+Proof. exact diff_for_humans_rs_total_lemma. Qed.
+Print Assumptions diff_for_humans_rs_total.
+
+(* direction.  "invert <-> the instance is the later instant" is REFUTED for two values that share one tzinfo object inside a repeated hour
+   (finding same-tzinfo-wall-order, listed for C05: `start > end` is evaluated on the wall clock) ... *)
+Theorem direction_wall_order_refuted : exists a b oa ob c,
+  p_instant b - p_instant a = 1800 * 1000000 /\ diff_comps false a b oa ob = Ok (c, true) /\ diff_comps true a b oa ob = Ok (c, true).
+Proof. exact diff_wall_order_refuted_lemma. Qed.
+Print Assumptions direction_wall_order_refuted.
+
+(* ... and holds for aware values with different tzinfo objects, or with equal offsets *)
+Theorem direction_follows_instants_partial : forall rs a b oa ob c inv,
+  p_aware a = true -> p_aware b = true -> (p_tzobj a <> p_tzobj b \/ p_offset a = p_offset b) ->
+  diff_comps rs a b oa ob = Ok (c, inv) -> (inv = true <-> p_instant b < p_instant a).
+Proof. exact direction_follows_instants_partial_lemma. Qed.
+Print Assumptions direction_follows_instants_partial.
+
+(* magnitude.  "the components are those of the elapsed time" is REFUTED when an endpoint is the second occurrence of a repeated wall
+   time (finding interval-init-drops-fold: one hour elapsed, all components 0, both backends) ... *)
+Theorem diff_second_occurrence_refuted : exists a b oa ob,
+  p_instant b - p_instant a = 3600 * 1000000 /\
+  diff_comps false a b oa ob = Ok (mkcomp 0 0 0 0 0 0 0, false) /\ diff_comps true a b oa ob = Ok (mkcomp 0 0 0 0 0 0 0, false).
+Proof. exact diff_second_occurrence_refuted_lemma. Qed.
+Print Assumptions diff_second_occurrence_refuted.
+
+(* ... elsewhere (fold-0 offset = offset for both) precise_diff is handed the operands themselves *)
+Theorem diff_sees_operands_partial : forall rs a b,
+  diff_comps rs a b (p_offset a) (p_offset b) =
+  (let inv := p_gtb a b in let s := if inv then b else a in let e := if inv then a else b in
+   bind (pd_backend rs s e) (fun d =>
+   let c := iv_components d (iv_elapsed s e) in
+   Ok (mkcomp (iv_years c) (iv_months c) (iv_weeks c) (iv_remaining_days c) (iv_hours c) (iv_minutes c) (iv_remaining_seconds c), inv))).
+Proof. exact diff_sees_operands_partial_lemma. Qed.
+Print Assumptions diff_sees_operands_partial.
+
+(* ... and with the compiled helper for cross-zone pairs whose manual UTC shift mis-carries (finding rs-cross-zone-shift, listed for C06):
+   one second elapsed, pure Python 1 second, compiled 1 hour -59 minutes 1 second *)
+Theorem diff_rs_cross_zone_refuted : exists a b,
+  p_instant b - p_instant a = 1000000 /\
+  diff_comps false a b (p_offset a) (p_offset b) = Ok (mkcomp 0 0 0 0 0 0 1, false) /\
+  diff_comps true a b (p_offset a) (p_offset b) = Ok (mkcomp 0 0 0 0 1 (-59) 1, false).
+Proof. exact diff_rs_cross_zone_refuted_lemma. Qed.
+Print Assumptions diff_rs_cross_zone_refuted.
